@@ -188,6 +188,7 @@ void runDamage(const Opts& o, long idx, CaseLog& log) {
     writeFileBytes(fp, bytes);
     unsigned long size = bytes.size();
     hookReset();
+    g_hook.maxLoopEntries = 4096 + 8 * size;      // entries of the (recursive) parameter-matrix loops: CPU-only loops over zero-sized inner dimensions issue no read
     g_hook.maxReads = 256 + 4 * size; g_hook.maxReadsAfterFail = (unsigned long)o.geti("max_reads_after_fail", 1024);
     g_hook.maxAllocBytes = (8ul << 20) + 400 * size; g_hook.maxSingleAlloc = (64ul << 20) + 400 * size;
     installAllocHooks();
@@ -236,7 +237,7 @@ void runFpProbe(const Opts& o, long idx, CaseLog& log) {
     Rng r(o.seed, (uint64_t)idx * 31 + 7);
     uint32_t pb = base[idx % (sizeof base / sizeof base[0])]; if (idx >= 48) pb = (uint32_t)r.below(0x7f800000u);
     int k = (int)(1 + (idx / 12) % 4) + (idx >= 48 ? (int)r.below(6) : 0);
-    float pr = bitsf(pb), ar = pr * (float)k; if ((idx / 3) % 5 == 4) ar = bitsf(pb * (uint32_t)k);     // also: k times the BIT pattern (exact for subnormals)
+    float pr = bitsf(pb), ar = pr * (float)k; if ((idx / 3) % 5 == 4 && pb < 0x00800000u) ar = bitsf(pb * (uint32_t)k);     // also: k times the BIT pattern (exact for subnormals)
     ezc3d::c3d c; std::ostringstream tr;
     { Outcome oc; Param p("RATE"); p.set(std::vector<float>(1, pr)); VF_TRY(oc, c.parameter("POINT", p)); tr << "prate:" << oc.cls; }
     { Outcome oc; Param p("RATE"); p.set(std::vector<float>(1, ar)); VF_TRY(oc, c.parameter("ANALOG", p)); tr << " arate:" << oc.cls; }
@@ -248,7 +249,7 @@ void runFpProbe(const Opts& o, long idx, CaseLog& log) {
     { Outcome oc; VF_TRY(oc, c.frame(f)); tr << " frame:" << oc.cls; }
     char fp[700]; snprintf(fp, sizeof fp, "%s/fp_%ld.c3d", o.out.c_str(), idx);
     { Outcome oc; VF_TRY(oc, c.write(fp)); tr << " save:" << oc.cls; if (!oc.threw) { tr << " bytes=" << std::hex << fnv(readFileBytes(fp)) << std::dec;
-        Outcome lo; std::unique_ptr<ezc3d::c3d> l; VF_TRY(lo, l.reset(new ezc3d::c3d(fp))); tr << " load:" << lo.cls; if (l) tr << " lsub=" << l->header().nbAnalogByFrame() << " snap=" << std::hex << hashSnap(take(*l)) << std::dec; } }
+        Outcome lo; std::unique_ptr<ezc3d::c3d> l; if (c.header().nbAnalogByFrame() <= 4096) VF_TRY(lo, l.reset(new ezc3d::c3d(fp))); tr << " load:" << lo.cls; if (l) tr << " lsub=" << l->header().nbAnalogByFrame() << " snap=" << std::hex << hashSnap(take(*l)) << std::dec; } }
     { // the scalar and vector overloads of Parameter::set with NaN / denormal / extreme patterns: returned bits and saved bytes
         static const uint32_t sp[] = {0x7fa00000u, 0x7fa00001u, 0xffa00001u, 0x7f800001u, 0x7fc00000u, 0xffc00001u, 0x00000001u, 0x807fffffu, 0x80000000u, 0x7f7fffffu, 0x00800000u, 0x7fffffffu};
         uint32_t b = sp[idx % (sizeof sp / sizeof sp[0])]; float fv = bitsf(b);
